@@ -232,6 +232,19 @@ C03_All(zz) ==
 \cup { L3("psrldq", <<RegRec("x", 128, 9, FALSE), v>>) : v \in ImmVals }
 \cup { L3("vperm2i128", <<RegRec("y", 256, 1, FALSE), RegRec("y", 256, 9, FALSE), RegRec("y", 256, 2, FALSE), v>>) : v \in ImmVals }
 \cup { L3("xabort", <<v>>) : v \in ImmVals }
+\* a size keyword in front of an immediate that follows other operands (nasm: a hint for the width of the immediate): not a documented
+\* spelling, so the line may be rejected - but when it is accepted it must be the operation at the size of its other operands
+ImK(kw, n) == [ImHex(n) EXCEPT !.kw = kw]
+M3(mn, opds) == Rec("C03", "MayReject", mn, opds)
+C03_Kw(zz) ==
+     { M3(mn, <<G(w, n), ImK(IF kb THEN "byte" ELSE KW(w), v)>>) : mn \in Alu \cup {"test", "mov"}, w \in {16, 32, 64}, n \in {0, 1, 9}, kb \in BOOLEAN, v \in {5, 127} }
+\cup { M3(mn, <<W(m, w, KW(w)), ImK(IF kb THEN "byte" ELSE KW(w), 5)>>) : mn \in {"add", "cmp", "mov", "test"}, w \in {8, 32, 64}, m \in MemD, kb \in BOOLEAN }
+\cup { M3(mn, <<G(w, 1), ImK("byte", v)>>) : mn \in Shifts, w \in {16, 32, 64}, v \in {1, 5} }
+\cup { M3("imul", <<G(w, 1), G(w, 9), ImK(IF kb THEN "byte" ELSE KW(w), 5)>>) : w \in {16, 32, 64}, kb \in BOOLEAN }
+\cup { M3(mn, <<G(w, 1), G(w, 9), ImK("byte", 5)>>) : mn \in {"shld", "shrd"}, w \in {16, 32, 64} }
+\cup { M3("rorx", <<G(w, 1), G(w, 9), ImK("byte", 5)>>) : w \in {32, 64} }
+\cup { M3("psrldq", <<RegRec("x", 128, 9, FALSE), ImK("byte", 5)>>),
+       M3("vperm2i128", <<RegRec("y", 256, 1, FALSE), RegRec("y", 256, 9, FALSE), RegRec("y", 256, 2, FALSE), ImK("byte", 5)>>) }
 CorpusC03(zz) == { [prop |-> y.prop, status |-> y.status, ast |-> y.ast,
                  flags |-> IF IsMovR64Imm(y.ast) /\ y.ast.opds[1].n = 0 THEN "x" ELSE "-"] :
                y \in {z \in C03_All(0) : Representable(z.ast)} }
@@ -287,6 +300,10 @@ C04_MemForms(zz) ==
 \cup { L4("mulx", <<G(w, a), G(w, b), W(m, w, KW(w))>>) : w \in {32, 64}, a \in {0, 15}, b \in {7, 8}, m \in MemV }
 \cup { L4("rorx", <<G(w, a), W(m, w, KW(w)), ImHex(5)>>) : w \in {32, 64}, a \in {0, 15}, m \in MemV }
 \cup { L4(mn, <<G(w, a), W(m, w, KW(w))>>) : mn \in {"adcx", "adox"}, w \in {32, 64}, a \in {0, 15}, m \in MemV }
+\* ... and a `byte` in front of the imm8 of the VEX forms (not documented: the line may be rejected, an accepted one must be right)
+\cup { Rec("C04", "MayReject", "rorx", <<G(w, a), G(w, b), [ImHex(5) EXCEPT !.kw = "byte"]>>) : w \in {32, 64}, a \in {0, 15}, b \in {7, 8} }
+\cup { Rec("C04", "MayReject", "rorx", <<G(w, a), W(m, w, ""), [ImHex(5) EXCEPT !.kw = "byte"]>>) : w \in {32, 64}, a \in {0, 15}, m \in MemV }
+\cup { Rec("C04", "MayReject", mn, <<Yr(a), Yr(b), Yr(a), [ImHex(5) EXCEPT !.kw = "byte"]>>) : mn \in {"vperm2i128", "vperm2f128"}, a \in {0, 15}, b \in {7, 8} }
 
 (* ================================ C05 =================================== *)
 RelMn == Jccs \cup {"jmp", "call", "jrcxz", "xbegin"}
@@ -408,6 +425,13 @@ C10_Empty(zz) ==
        Raw("empty-operand", <<"add", " ", ",">>), Raw("empty-operand", <<"add", " ", ",", ",">>) }
 \cup { Raw("operand-after-immediate", <<mn, " ", "rax", ",", " ", "0x5", ",", " ", x>>) : mn \in {"add", "mov", "shl", "imul", "test", "ror"}, x \in {"rcx", "0x1", "[rax]", "xmm1"} }
 \cup { Raw("operand-after-immediate", <<mn, " ", "0x5", ",", " ", x>>) : mn \in {"push", "jmp", "call", "xabort", "jne"}, x \in {"rcx", "0x1", "[rax]"} }
+\* ... behind the immediate of the three- and four-operand forms (a fourth / fifth operand)
+\cup { Raw("operand-after-immediate", <<mn, " ", "rax", ",", " ", "rbx", ",", " ", "0x5", ",", " ", x>>) : mn \in {"rorx", "imul", "shld", "shrd"}, x \in {"rcx", "0x1", "[rax]", "xmm1"} }
+\cup { Raw("operand-after-immediate", <<mn, " ", "ymm0", ",", " ", "ymm1", ",", " ", "ymm2", ",", " ", "0x1", ",", " ", x>>) :
+         mn \in {"vperm2i128", "vperm2f128"}, x \in {"ymm3", "rcx", "0x1", "[rax]", "xmm1"} }
+\cup { Raw("too-many-operands", <<mn, " ", "ymm0", ",", " ", "ymm1", ",", " ", "ymm2", ",", " ", "ymm3", ",", " ", x>>) : mn \in {"vpaddb", "vperm2i128", "vpxor"}, x \in {"ymm4", "0x1"} }
+\cup { Raw("too-many-operands", <<mn, " ", "rax", ",", " ", "rbx", ",", " ", "rcx", ",", " ", "rdx", ",", " ", x>>) : mn \in {"add", "mov", "mulx", "bzhi"}, x \in {"rsi", "0x1", "[rax]"} }
+\cup { Raw("too-many-operands", <<"vperm2i128", " ", "ymm0", ",", " ", "ymm1", ",", " ", "ymm2", ",", " ", "0x1", ",", " ", "ymm3", ",", " ", "ymm4">>) }
 HiBytes == { "<7f>", "<80>", "<81>", "<90>", "<a0>", "<c2>", "<c3>", "<e9>", "<fe>", "<ff>" }
 BaseLines == { <<"add", " ", "rax", ",", " ", "rcx">>, <<"mov", " ", "rcx", ",", " ", "[", "rax", "+", "0x10", "]">>, <<"ret">>,
                <<"vpaddb", " ", "ymm1", ",", " ", "ymm2", ",", " ", "ymm3">>, <<"push", " ", "0x5">> }
@@ -465,6 +489,7 @@ Selected == CASE IOEnv.CORPUS = "C01" -> CorpusC01(0)
               [] IOEnv.CORPUS = "C02j" -> C02_Cls2(LAMBDA m : m.a = 32)
               [] IOEnv.CORPUS = "C02l" -> C02_Sp(0)
               [] IOEnv.CORPUS = "C03" -> CorpusC03(0)
+              [] IOEnv.CORPUS = "C03k" -> { [prop |-> y.prop, status |-> y.status, ast |-> y.ast, flags |-> "-"] : y \in C03_Kw(0) }
               [] IOEnv.CORPUS = "C04a" -> C04_Mmx(0) \cup C04_Sse(0) \cup C04_Mov(0) \cup C04_VMov(0)
               [] IOEnv.CORPUS = "C04b" -> C04_VexRest(0) \cup C04_Bmi(FALSE)
               [] IOEnv.CORPUS = "C04c" -> C04_MemForms(0)
